@@ -21,6 +21,10 @@ def sh(cmd, cwd=None):
 
 def main():
     args = sys.argv[1:]
+    own_only = False
+    if args and args[0] == "--own":
+        # robustness probe: only the check of the change's own property, nothing is recorded
+        own_only = True; args = args[1:]
     props = ALL
     if args and args[0] == "--props":
         props = args[1].split(","); args = args[2:]
@@ -33,6 +37,14 @@ def main():
         if args and not any(a in name for a in args):
             continue
         meta = json.load(open(os.path.join(d, "meta.json")))
+        if own_only:
+            rc, out = sh("git apply %s" % os.path.join(d, "patch.diff"), REPO)
+            try:
+                rc, out = sh("./check %s quick" % meta["property"], VERIF)
+            finally:
+                sh("git checkout -- .", REPO); sh("rm -f replays/*.json", VERIF)
+            print(name, meta["property"], "exit", rc, flush=True)
+            continue
         rc, out = sh("git apply %s" % os.path.join(d, "patch.diff"), REPO)
         if rc != 0:
             print(name, "patch does not apply:", out[-200:]); continue
